@@ -276,12 +276,18 @@ def call_value(engine, st, fv, args, kwargs, node=None, recv_node=None):
                 if nxt is None:
                     return
                 rest = nxt
+            m = engine.ext_models.get("<call-of-value>")
+            if m is not None:
+                yield from m(engine, rest, [fv] + list(args), kwargs, node)
+                return
             raise OutsideSubset("call of a value that is not provably one of str/bool/int")
         m = engine.ext_models.get("<call-of-value>")
         if m is not None:
             yield from m(engine, st, [fv] + list(args), kwargs, node)
             return
         raise OutsideSubset(f"call of a value of type {fv.ty}")
+    elif k in ("set", "list", "dict", "tuple", "int", "str", "bool", "none", "graph"):
+        yield st, Raised("TypeError", where=f"'{k}' object is not callable")
     else:
         raise OutsideSubset(f"call of {k}")
 
